@@ -22,6 +22,7 @@ type scenario struct {
 	sched   []Step
 	key     string
 	barrier bool // wall-clock driven barrier nodes upstream: own trace file, verdict level only
+	gated   bool // streamed batch parents, schedule at message granularity (gate.go)
 }
 
 // nonDecSeqs: every non-decreasing sequence of length n over 1..tmax.
@@ -436,7 +437,34 @@ func build(r *rt.Run) (scs []scenario, exhaustive bool, extra map[string]any) {
 		}
 	}
 
+	// streamed batch parents (query|where forwards begin/point/end individually): the readers of the real
+	// multiConsumer reassemble the batches; with the gate the sequences of different parents are interleaved
+	// MESSAGE BY MESSAGE in every order (shapes: tmax and point times per batch).
+	gatedFor := func(c Cfg, shapes [][][]Msg) {
+		c.Edge, c.Streamed = "batch", true
+		for _, ps := range shapes {
+			lens := make([]int, len(ps))
+			for s, p := range ps {
+				for _, m := range p {
+					lens[s] += 2 + len(m.P)
+				}
+			}
+			for _, sc := range interleavings(lens) {
+				scs = append(scs, scenario{c: c, parents: ps, sched: sc, gated: true,
+					key: c.String() + inputKey(ps) + "/gated/" + schedKey(sc)})
+			}
+		}
+	}
+	bm := func(src, k, t int, pts ...int) Msg { return Msg{T: t, G: "x", V: 10*(src+1) + k, P: pts} }
+	gshapes2 := [][][]Msg{
+		{{bm(0, 1, 1, 1)}, {bm(1, 1, 1, 1, 1)}},                  // 3 + 4 messages: 35 orders
+		{{bm(0, 1, 1, 1), bm(0, 2, 2, 2)}, {bm(1, 1, 2, 1, 2)}}, // 6 + 4 messages: 210 orders
+	}
+
 	if !r.Thorough() {
+		gatedFor(Cfg{Kind: "join", N: 2, Fill: "null", Tol: 0}, gshapes2)
+		gatedFor(Cfg{Kind: "union", N: 2, Fill: "none"}, gshapes2[:1])
+		allFor(Cfg{Kind: "join", Edge: "batch", N: 2, Fill: "none", Tol: 2, Streamed: true}, 2, 1)
 		barrierRuns(Cfg{Kind: "join", Edge: "stream", N: 2, Fill: "null", Tol: 0}, 8)
 		barrierRuns(Cfg{Kind: "join", Edge: "stream", N: 2, Fill: "none", Tol: 0}, 8)
 		for _, c := range joinCfgs("stream", 2) {
@@ -464,6 +492,17 @@ func build(r *rt.Run) (scs []scenario, exhaustive bool, extra map[string]any) {
 		extra["bounds"] = "2 parents x <=2 messages (times 1..3, duplicates, gaps, silent parent) x all interleavings for fill x tolerance; 3 parents x <=1; batch sampled"
 		return scs, false, extra // join.on and batch inputs are sampled in this tier
 	}
+	gshapes3 := [][][]Msg{{{bm(0, 1, 1, 1)}, {bm(1, 1, 1, 1)}, {bm(2, 1, 2, 1, 2)}}} // 3 + 3 + 4 messages: 4200 orders
+	for _, c := range []Cfg{{Kind: "join", N: 2, Fill: "null", Tol: 0}, {Kind: "join", N: 2, Fill: "none", Tol: 2}, {Kind: "union", N: 2, Fill: "none"}} {
+		gatedFor(c, gshapes2)
+	}
+	gatedFor(Cfg{Kind: "join", N: 3, Fill: "null", Tol: 0}, gshapes3)
+	gatedFor(Cfg{Kind: "union", N: 3, Fill: "none"}, gshapes3)
+	for _, c := range joinCfgs("batch", 2) {
+		c.Streamed = true
+		allFor(c, 2, 2)
+	}
+	allFor(Cfg{Kind: "union", Edge: "batch", N: 2, Fill: "none", Streamed: true}, 2, 2)
 	for _, c := range joinCfgs("stream", 2) {
 		if c.Tol == 0 {
 			barrierRuns(c, 24)
@@ -509,6 +548,7 @@ func build(r *rt.Run) (scs []scenario, exhaustive bool, extra map[string]any) {
 
 // Run: B3 on real join/union tasks.
 func Run(r *rt.Run) error {
+	installGateHook()
 	scs, exhaustive, extra := build(r)
 	const workers = 8
 	traces := make([]*rt.Trace, workers)
@@ -535,7 +575,11 @@ func Run(r *rt.Run) error {
 				if sc.barrier {
 					tr = btraces[w]
 				}
-				rn.Run(tr, sc.c, sc.parents, sc.sched)
+				if sc.gated {
+					rn.RunGated(tr, sc.c, sc.parents, sc.sched)
+				} else {
+					rn.Run(tr, sc.c, sc.parents, sc.sched)
+				}
 				total := 0
 				for _, p := range sc.parents {
 					total += len(p)
